@@ -23,7 +23,6 @@ CACHE = os.path.join(ROOT, ".cache")
 COQ = os.path.join(ROOT, "coq")
 TARGET = os.path.join(CACHE, "target")
 TARGET_S4 = os.path.join(CACHE, "target-s4")
-HARNESS_BIN = os.path.join(TARGET, "debug", "s4verif")
 S4_BIN = os.path.join(TARGET_S4, "verif", "s4")
 NCPU = os.cpu_count() or 4
 
@@ -190,15 +189,20 @@ def shard(lst, n):
 
 # ----------------------------------------------------------------------------- Rust builds
 
-def build_harness(timeout=1800):
+def harness_bin(name):
+    return os.path.join(TARGET, "debug", name)
+
+
+def build_harness(name, timeout=1800):
+    """build harness/src/bin/<name>.rs (and s4lib from the current /repo tree, hooks on)"""
     with Lock("cargo-harness"):
         hdir = os.path.join(ROOT, "harness")
         lock = os.path.join(hdir, "Cargo.lock")
         if not os.path.exists(lock) or os.path.getmtime(lock) < os.path.getmtime(os.path.join(REPO, "Cargo.lock")):
             shutil.copy(os.path.join(REPO, "Cargo.lock"), lock)
-        rc, out = sh(["cargo", "build", "--offline", "--quiet"], cwd=hdir, timeout=timeout,
+        rc, out = sh(["cargo", "build", "--offline", "--quiet", "--bin", name], cwd=hdir, timeout=timeout,
                      env={"CARGO_TARGET_DIR": TARGET, "RUSTFLAGS": "--cfg s4_verif -Awarnings"})
-        return rc == 0 and os.path.exists(HARNESS_BIN), out
+        return rc == 0 and os.path.exists(harness_bin(name)), out
 
 
 def build_s4(timeout=1800):
@@ -212,13 +216,28 @@ def build_s4(timeout=1800):
         return rc == 0 and os.path.exists(S4_BIN), out
 
 
-def harness(sub, lines, timeout=600, args=()):
-    """run `s4verif <sub>` feeding lines; returns list of output lines or None"""
+def harness(name, lines, timeout=600, args=(), env=None):
+    """run harness binary <name> feeding lines on stdin; returns (output lines | None, stderr tail)"""
     inp = ("\n".join(lines) + "\n").encode()
-    rc, out, err = sh2([HARNESS_BIN, sub] + list(args), inp=inp, timeout=timeout)
+    rc, out, err = sh2([harness_bin(name)] + list(args), inp=inp, timeout=timeout, env=env)
     if rc != 0:
         return None, err.decode("utf-8", "replace")[-2000:]
     return out.decode("utf-8", "replace").splitlines(), ""
+
+
+def run_s4(args, timeout=60, env=None, cwd=None, inp=None):
+    """run the hooked release-like s4 binary; returns (rc, stdout bytes, stderr bytes).
+    rc 124 = timeout (a hang)."""
+    return sh2([S4_BIN] + list(args), timeout=timeout, env=env, cwd=cwd, inp=inp)
+
+
+def scratch_dir(prop):
+    """per-property scratch directory under /verif/.cache (never /tmp)"""
+    d = os.path.join(CACHE, "scratch", prop)
+    if os.path.isdir(d):
+        shutil.rmtree(d)
+    os.makedirs(d)
+    return d
 
 
 # ----------------------------------------------------------------------------- context / verdicts
